@@ -22,6 +22,10 @@ void mmd_engine_parse_string(mmd_engine *e) {
 	n_parse++;
 	for (int i = 0; i <= N; i++) rec_text[i] = ((size_t) i <= e->dstr->currentStringLength) ? e->dstr->str[i] : 0;
 	rec_ext = e->extensions; rec_lang = e->language; rec_ql = e->quotes_lang;
+	/* like the real parse, leave a document root spanning the text in the engine */
+	static token roots[8]; static int nr; token *r = &roots[nr < 7 ? nr++ : 7];
+	memset(r, 0, sizeof *r); r->type = DOC_START_TOKEN; r->len = e->dstr->currentStringLength; r->tail = r;
+	e->root = r;
 }
 void mmd_engine_export_token_tree(DString *out, mmd_engine *e, short format) {
 	n_export++; rec_fmt = format;
